@@ -1,5 +1,6 @@
 """Property table for the non-queue checks."""
 import pure
+from common import REPO as REPO_DIR
 
 
 def q(n_quick, n_thorough):
@@ -129,4 +130,18 @@ def c15(prop, tier, res, replay=None):
         "configurations are generated as text through the real parser/compiler/runtime wiring (publish_policy, route publish flags, managed labels, max_body/max_headers); stores are the real memory and SQLite stores with small max_depth (reject and drop_oldest), pre-filled; timestamps are RFC 3339 within 1000 s of the clock; strings.TrimSpace is modelled on the white-space set {SP,\\t,\\n,\\v,\\f,\\r,U+0085,U+00A0} (generated ids/targets use only those)"], replay)
 
 
-TABLE = {"C18": c18, "C15": c15, "C07": c07, "C20": c20, "C11": c11, "C06": c06, "C16": c16, "C10": c10, "C08": c08, "C09": c09, "C17": c17}
+CFGFMT = dict(sub="cfgfmt", mode="cfgfmt", family="cfgfmt", shards=q(4, 16),
+              args=lambda tier, sd, sh: ["-seed", sd * 1000 + sh, "-n", 2500 if tier == "quick" else 25000, "-lex", 3000 if tier == "quick" else 30000,
+                                         "-quote", 3000 if tier == "quick" else 30000, "-shard", sh, "-shards", 4 if tier == "quick" else 16, "-repo", REPO_DIR],
+              key_fields=["k", "origin", "src", "v", "quoted"])
+
+
+def c19(prop, tier, res, replay=None):
+    return pure.check_cases(prop, tier, res, [CFGFMT], [
+        "PROVED (Lean, unbounded): the lexer/quoting layer - quoteString/formatValue output lexes back to exactly one token of the same kind and text for every value the lexer can have produced (with the exact characterisation of the values for which it does not, and the proof that the lexer never produces them), token streams survive joining words by spaces and lines by newlines. Tied to the code by differential runs of the real lexer and quoting helpers against the model",
+        "NOT PROVED, differential only: that the formatter's per-directive tables (format.go, 1 kLoC) print every field the parser's tables (parser.go, 3.6 kLoC) can set. This is decided by running Parse/Format/Parse/Compile on texts and comparing complete compiled configurations and validation results (canonical dump of every field; error/warning lists compared as sets because their order follows Go map iteration) plus idempotence of the second fmt",
+        "inputs of the differential: every string literal in the repository's Go files (tests included) and every fenced block in its docs that the parser accepts, read from /repo at run time (currently ~420 texts covering every documented directive), and token-level mutations of them (re-quoting, special values incl. blank/escapes/placeholders/braces, comments, duplicated tokens, spliced blocks); a directive that appears in no test and no doc is not exercised",
+        "positions in lexer error messages are not modelled; input is valid UTF-8 (the lexer rejects invalid UTF-8 at token starts)"], replay)
+
+
+TABLE = {"C18": c18, "C19": c19, "C15": c15, "C07": c07, "C20": c20, "C11": c11, "C06": c06, "C16": c16, "C10": c10, "C08": c08, "C09": c09, "C17": c17}
